@@ -81,6 +81,11 @@ CLAIMS = {
         "Exploration: 61 builtin sources + 24k (quick) / 960k (thorough) fragments + generated (model, dtype spelling, forced-library suffix) builds; one defect repaired (adjacent keywords), three listed findings keyed by token class, every differing token class of a fragment is reported.",
         "Token = C99 preprocessing token by the harness lexer; well-formedness of fragments is by construction of the grammar; quad vs double compared at 1e-9, single at 5e-5 of max|I|.",
         "DESIGN.md section 3 C15"),
+    "C16": (
+        "generated reparameterisation programs (translation ASTs rendered to C and evaluated in Python by the harness) x Hypothesis-drawn requests; oracle = base model at the translated parameters (public API for single points, base shim functions for the weighted mean over the mesh of new parameters, valid points only) and table predicates",
+        "Exploration: 12 base models x 45 (quick) / 1500 (thorough) generated (program, request) pairs, each program compiled once; I, <F>, <F^2>, R_eff, V, ratio at 1e-10; one defect repaired (inline C bodies).",
+        "Base model correctness is C01's subject; identifiers from a safe alphabet; translated values kept positive except in the constructed invalid-region class.",
+        "DESIGN.md section 3 C16"),
     "C19": (
         "Hypothesis-generated spin-echo grids / wavelengths / acceptances with Gaussians placed inside the transform's own q range; oracle = analytic Hankel pair, adaptive quadrature for the acceptance-limited J0 term, linearity and grid predicates, Gxi end-to-end scale/background relation",
         "Exploration: ~640 (quick) / ~6.4k (thorough) generated transforms incl. single-point sets, per-point wavelengths and restricted acceptance; one defect repaired (acceptance units).",
